@@ -313,7 +313,13 @@ Section Run.
                         /\ ((N.of_nat i * bs + block_len bs (cf_size f) i <= fsz (r_fs s) j (cf_name f))%N
                             <-> (N.of_nat i * bs + block_len bs (cf_size f) i <= fsz fs0 j (cf_name f))%N));
       ri_par : forall p l, (p < k -> l < nlev -> par_matches (vs p) (prow (r_par s) p l) = true)
-                           /\ (k <= p -> nth p (nth l (r_par s) []) PNone = nth p (nth l par []) PNone)
+                           /\ (k <= p -> nth p (nth l (r_par s) []) PNone = nth p (nth l par []) PNone);
+      (* a file never flagged FIXED is exactly what it was; a FIXED file has its recorded time-stamp once its last block is passed *)
+      ri_nofix : forall p j f i b, slot_of c p j = SFile f i b -> fl_fixed (get_fl (r_flags s) (j, cf_name f)) = false ->
+                                   fs_find (r_fs s) j (cf_name f) = fs_find fs0 j (cf_name f);
+      ri_stamp : forall p j f i b, slot_of c p j = SFile f i b -> uniq_stamp c j f -> S i = length (cf_blocks f) -> p < k ->
+                                   fl_fixed (get_fl (r_flags s) (j, cf_name f)) = true ->
+                                   exists g, fs_find (r_fs s) j (cf_name f) = Some g /\ ff_mtime g = cf_mtime f /\ ff_nsec g = cf_nsec f
     }.
 
     Lemma rinv_0 : rinv 0 s0.
@@ -323,6 +329,7 @@ Section Run.
         + unfold fsz. destruct (fs_find fs0 j (cf_name f)) as [g|] eqn:E; [apply (Hnl p j f i b g Hs E) | lia].
         + split; [intro X; lia | intros _; split; [reflexivity | tauto]].
       - intros p l. split; [intros X; lia | reflexivity].
+      - intros p j f i b _ _ _ X. lia.
     Qed.
 
     (* reading an unprocessed block gives what it gave in the damaged array *)
@@ -371,7 +378,7 @@ Section Run.
       { intros j f i b Hs. apply (g_wf bs c bm Hgeom k j f i b Hs). }
       destruct (fix_step_full hashf padz truncf bs nlev reduced newino now o c fs0 k s (vs k) Hplain Hfix (Hsyn k Hk) (ri_len k s I)
                   Hfile (Henc k Hk) (fun j f i b Hs => Hpad k j f i b Hs) CFd CFj' CFr' CFs' Hcnt Hpl Hdm Hwf)
-        as [A [B [C [D [E [F1 [F2 [F3 F4]]]]]]]].
+        as [A [B [C [D [E [F1 [F2 [F3 [F4 [HG1 HG2]]]]]]]]]].
       set (s' := stripe_step o c fs0 s k) in *.
       (* what the step does to the file named by an arbitrary slot (p, j, f, i, b) *)
       assert (Hcase : forall p j f i b, slot_of c p j = SFile f i b ->
@@ -418,6 +425,42 @@ Section Run.
         + intros Hp Hl. destruct (Nat.eq_dec p k) as [Epk|Epk]; [subst p; apply B; exact Hl|].
           unfold prow. rewrite (F1 l p Epk). apply R1; [lia | exact Hl].
         + intro Hp. rewrite (F1 l p ltac:(lia)). apply R2. lia.
+      - (* never FIXED: untouched *)
+        intros p j f i b Hs Hnf.
+        assert (Hout : (forall f' idx' b', slot_of c k j = SFile f' idx' b' -> cf_name f' <> cf_name f) ->
+                       fs_find (r_fs s') j (cf_name f) = fs_find fs0 j (cf_name f)).
+        { intro Hno. destruct (HG1 j (cf_name f) Hno) as [G1a G1b]. rewrite G1a. rewrite G1b in Hnf. apply (ri_nofix k s I p j f i b Hs Hnf). }
+        destruct (slot_of c k j) as [|fk ik bk|h] eqn:Ek.
+        + apply Hout. intros f' idx' b' X. discriminate X.
+        + destruct (N.eq_dec (cf_name fk) (cf_name f)) as [En|En].
+          * destruct (g_same bs c bm Hgeom k p j fk ik bk f i b Ek Hs En) as [Ef _]. subst fk.
+            destruct (HG2 j f ik bk Ek) as [Ga [Gb _]]. rewrite Hnf in Ga. symmetry in Ga. apply orb_false_iff in Ga. destruct Ga as [Ga1 Ga2].
+            rewrite (Gb Ga2 Ga1). apply (ri_nofix k s I p j f i b Hs Ga1).
+          * apply Hout. intros f' idx' b' X. injection X as X1 X2 X3. subst f'. exact En.
+        + apply Hout. intros f' idx' b' X. discriminate X.
+      - (* FIXED and past the last block: the recorded time-stamp *)
+        intros p j f i b Hs Hu Hl Hp Hfx.
+        destruct (slot_of c k j) as [|fk ik bk|h] eqn:Ek.
+        + assert (Hno : forall f' idx' b', slot_of c k j = SFile f' idx' b' -> cf_name f' <> cf_name f) by (intros f' idx' b' X; rewrite Ek in X; discriminate X).
+          destruct (HG1 j (cf_name f) Hno) as [G1a G1b]. rewrite G1a. rewrite G1b in Hfx.
+          assert (Hpk : p <> k) by (intro X; subst p; rewrite Ek in Hs; discriminate Hs).
+          apply (ri_stamp k s I p j f i b Hs Hu Hl ltac:(lia) Hfx).
+        + destruct (N.eq_dec (cf_name fk) (cf_name f)) as [En|En].
+          * destruct (g_same bs c bm Hgeom k p j fk ik bk f i b Ek Hs En) as [Ef Hord]. subst fk.
+            destruct (Nat.eq_dec p k) as [Epk|Epk].
+            -- subst p. rewrite Ek in Hs. injection Hs as Hi Hb'. subst ik bk.
+               destruct (HG2 j f i b Ek) as [_ [_ Gc]]. apply (Gc Hu Hl Hfx).
+            -- exfalso. destruct (g_same bs c bm Hgeom p k j f i b f ik bk Hs Ek eq_refl) as [_ Hord2].
+               pose proof (g_idx bs c bm Hgeom k j f ik bk Ek). specialize (Hord2 ltac:(lia)). lia.
+          * assert (Hno : forall f' idx' b', slot_of c k j = SFile f' idx' b' -> cf_name f' <> cf_name f).
+            { intros f' idx' b' X. rewrite Ek in X. injection X as X1 X2 X3. subst f'. exact En. }
+            destruct (HG1 j (cf_name f) Hno) as [G1a G1b]. rewrite G1a. rewrite G1b in Hfx.
+            assert (Hpk : p <> k) by (intro X; subst p; rewrite Ek in Hs; injection Hs as X1 X2 X3; subst fk; apply En; reflexivity).
+            apply (ri_stamp k s I p j f i b Hs Hu Hl ltac:(lia) Hfx).
+        + assert (Hno : forall f' idx' b', slot_of c k j = SFile f' idx' b' -> cf_name f' <> cf_name f) by (intros f' idx' b' X; rewrite Ek in X; discriminate X).
+          destruct (HG1 j (cf_name f) Hno) as [G1a G1b]. rewrite G1a. rewrite G1b in Hfx.
+          assert (Hpk : p <> k) by (intro X; subst p; rewrite Ek in Hs; discriminate Hs).
+          apply (ri_stamp k s I p j f i b Hs Hu Hl ltac:(lia) Hfx).
     Qed.
 
     Lemma rinv_loop : forall k, k <= bm ->
@@ -511,6 +554,10 @@ Section Run.
         { apply F4. intro X. injection X as X1 X2. subst j. apply (Hnames p f i b Hs). exact X2. }
         unfold fsz, fblk. rewrite E. apply (ri_files bm s I p j f i b Hs).
       - intros p l. rewrite F1. apply (ri_par bm s I).
+      - intros p j f i b Hs. rewrite F2, F4; [apply (ri_nofix bm s I p j f i b Hs)|].
+        intro X. injection X as X1 X2. subst j. apply (Hnames p f i b Hs). exact X2.
+      - intros p j f i b Hs. rewrite F2, F4; [apply (ri_stamp bm s I p j f i b Hs)|].
+        intro X. injection X as X1 X2. subst j. apply (Hnames p f i b Hs). exact X2.
     Qed.
 
     Variable objs : list obj.
@@ -641,6 +688,43 @@ Section Run.
       split; [apply (ri_dam bm s2 I2) | apply (ri_parlen bm s2 I2)].
     Qed.
 
+
+
+    Lemma fix_run_rinv : rinv bm (out_st (check_run hashf padz truncf bs nlev reduced newino now o c par fs0 objs (seq 0 bm))).
+    Proof.
+      rewrite (check_run_unfold o c par fs0 objs bm Hbm). cbv zeta. fold s0.
+      pose proof (rinv_loop bm (le_n bm)) as I1. pose proof (finv_loop bm (le_n bm)) as J1.
+      set (s1 := fold_left (fun s pos => if block_enabled nlev o c pos then stripe_step o c fs0 s pos else s) (seq 0 bm) s0) in *.
+      destruct (rinv_objs objs s1 (fun x H => H) I1) as [I2 E2].
+      set (s2 := fold_left (obj_step newino now o c) objs s1) in *.
+      assert (Ec : cleanup o s2 = s2).
+      { apply cleanup_noop. intros k f Hin. rewrite E2 in Hin. destruct J1 as [Hnd Hcr].
+        pose proof (get_fl_in (r_flags s1) k f Hnd Hin) as Eg.
+        destruct (fl_created f) eqn:Ecr; [|reflexivity]. cbn [andb].
+        destruct (Hcr k ltac:(rewrite Eg; exact Ecr)) as [Hf|[p [j [f' [i [b [Hp [Hs _]]]]]]]].
+        - rewrite Eg in Hf. rewrite Hf. reflexivity.
+        - pose proof (g_bm bs c bm Hgeom p j f' i b Hs). lia. }
+      rewrite Ec. cbn [out_st]. exact I2.
+    Qed.
+
+    (* the time-stamps: after the run every file with blocks is either exactly the file it was before the run (never written:
+       none of its blocks was damaged) or carries its recorded time-stamp.  uniq_stamp: no other file of the disk has the same
+       size and time-stamp (else fix does not set the time and reports `collision:`) *)
+    Theorem fix_run_stamps :
+      let out := check_run hashf padz truncf bs nlev reduced newino now o c par fs0 objs (seq 0 bm) in
+      forall p j f i b, slot_of c p j = SFile f i b -> uniq_stamp c j f ->
+        exists g, fs_find (r_fs (out_st out)) j (cf_name f) = Some g
+                  /\ ((ff_mtime g = cf_mtime f /\ ff_nsec g = cf_nsec f) \/ fs_find fs0 j (cf_name f) = Some g).
+    Proof.
+      cbn zeta. intros p j f i b Hs Hu. pose proof fix_run_rinv as I.
+      set (s2 := out_st (check_run hashf padz truncf bs nlev reduced newino now o c par fs0 objs (seq 0 bm))) in *.
+      destruct (fl_fixed (get_fl (r_flags s2) (j, cf_name f))) eqn:Efx.
+      - destruct (g_last bs c bm Hgeom p j f i b Hs) as [p' [i' [b' [Hs' [Hl _]]]]].
+        destruct (ri_stamp bm s2 I p' j f i' b' Hs' Hu Hl (g_bm bs c bm Hgeom p' j f i' b' Hs') Efx) as [g [Hg [H1 H2]]].
+        exists g. split; [exact Hg | left; split; assumption].
+      - destruct (rinv_restored s2 I) as [_ [Hfiles _]]. destruct (Hfiles p j f i b Hs) as [g [Hg _]].
+        exists g. split; [exact Hg | right]. rewrite <- (ri_nofix bm s2 I p j f i b Hs Efx). exact Hg.
+    Qed.
 
     Theorem fix_run_objects :
       let out := check_run hashf padz truncf bs nlev reduced newino now o c par fs0 objs (seq 0 bm) in
@@ -941,6 +1025,22 @@ Section Statements.
     exact (fix_run_restores hashf padz truncf bs nlev reduced newino now o c bm fs par vs Hp Hf S2 S3 Hl Hpl S4 S5 Hnl R1 R2 R3 R4 R5 objs O1 O2 S1).
   Qed.
 
+
+
+  (* the time-stamps after fix: every file with blocks is either exactly the file it was before the run (never written) or
+     carries its recorded time-stamp *)
+  Theorem run_fix_stamps o c bm fs par vs objs :
+    plain nlev o -> co_fix o = true -> synced_array hashf padz bs c bm vs ->
+    length fs = length (c_disks c) -> nlev <= length par -> no_larger c fs ->
+    recoverable hashf padz bs nlev (co_nosearch o) c bm fs par vs -> objs_ok c objs ->
+    let out := check_run o c par fs objs (seq 0 bm) in
+    forall p j f i b, slot_of c p j = SFile f i b -> uniq_stamp c j f ->
+      exists g, fs_find (r_fs (out_st out)) j (cf_name f) = Some g
+                /\ ((ff_mtime g = cf_mtime f /\ ff_nsec g = cf_nsec f) \/ fs_find fs j (cf_name f) = Some g).
+  Proof.
+    intros Hp Hf [S1 S2 S3 S4 S5] Hl Hpl Hnl [R1 R2 R3 R4 R5] [O1 O2].
+    exact (fix_run_stamps hashf padz truncf bs nlev reduced newino now o c bm fs par vs Hp Hf S2 S3 Hl Hpl S4 S5 Hnl R1 R2 R3 R4 R5 objs O1 O2 S1).
+  Qed.
 
   (* the empty files and the hard links of the run are in order afterwards (also when the array has no block at all, bm = 0:
      the case repaired by 1f26379) *)
